@@ -84,7 +84,11 @@ Lemma run_loop_S k s :
         end
       else (s, Ok tt)
   end.
-Proof. reflexivity. Qed.
+Proof.
+  simpl. destruct (pop_min (oracle s) (heap s)) as [[[[e r] o] bad]|]; auto.
+  destruct (due (e_t e) (now s)); auto. destruct (take_key (e_name e) (events s)) as [[f ev']|]; auto.
+  destruct (call_fn f (e_args e) (popped e r o bad ev' s)) as [s1 x]. rewrite after_call_never. reflexivity.
+Qed.
 
 Lemma due_no t c : c <= t -> due t c = false.
 Proof. intros H. unfold due. rewrite table_strict. lia. Qed.
@@ -177,7 +181,7 @@ Proof.
     destruct (due (e_t e) (now s)); auto.
     destruct (take_key (e_name e) (events s)) as [[f ev']|]; auto.
     pose proof (call_fn_fuelout f (e_args e) (popped e r o bad ev' s)) as F2.
-    destruct (call_fn f (e_args e) (popped e r o bad ev' s)) as [s1 x]. simpl in F2. apply IH; auto. congruence.
+    destruct (call_fn f (e_args e) (popped e r o bad ev' s)) as [s1 x]. rewrite ?after_call_never. simpl in F2. apply IH; auto. congruence.
 Qed.
 
 Lemma run_ops_more f k ops : forall s, fuelout s = false -> fuelout (run_ops f ops s) = false ->
